@@ -637,9 +637,13 @@ class ContainerEngine:
         self.oracle_checks += 1
         feats = dict(feats)
         if not pathlib.Path(path).exists():
-            if any(e["state"] == "stored" for e in ref.values()):
+            if any(e["state"] == "stored" or "user_new" in e
+                   for e in ref.values()):
                 return make_violation(self.prop, "K4", "file-missing", feats,
                                       "container file vanished", i)
+            # failed first saves that left no file: the entries are known
+            # to be absent
+            ref.clear()
             return None
         PLAN.disarm()
         PLAN.set_phase(None)
